@@ -22,6 +22,10 @@ type Value interface{}
 type Ptr struct {
 	Obj  int
 	Path []int
+	// Sym, when non-nil, is a symbolic element index below Path (which then names an array of
+	// scalars of length SymN): loads become ite chains, stores update every cell conditionally.
+	Sym  *smt.Term
+	SymN int
 }
 
 func (p Ptr) IsNil() bool { return p.Obj == 0 }
@@ -30,11 +34,11 @@ func (p Ptr) Sub(i int) Ptr {
 	np := make([]int, len(p.Path)+1)
 	copy(np, p.Path)
 	np[len(p.Path)] = i
-	return Ptr{p.Obj, np}
+	return Ptr{Obj: p.Obj, Path: np}
 }
 
 func samePtr(a, b Ptr) bool {
-	if a.Obj != b.Obj || len(a.Path) != len(b.Path) {
+	if a.Obj != b.Obj || len(a.Path) != len(b.Path) || (a.Sym != nil) != (b.Sym != nil) {
 		return false
 	}
 	for i := range a.Path {
